@@ -62,7 +62,7 @@ Theorem C09_reception_cases :
                     | inr f => rr_errid r = None /\ rr_frame r = Some f /\ rr_reply r = []
                     end))
            end.
-Proof. exact recv_cases. Qed.
+Proof. exact (@recv_cases). Qed.
 Print Assumptions C09_reception_cases.
 
 (* a block is allocated iff it is either released by the receiver (exactly on a channel error) or handed to the caller (who releases it with regp_free); never both; none on allocation failure *)
@@ -73,7 +73,7 @@ Theorem C09_every_block_released_exactly_once :
          (ok = false -> rr_allocated r = false) /\
          (rr_block_to_caller r = true -> rr_rc r = RcOk) /\
          (rr_freed_by_recv r = true -> exists e : errno, rr_rc r = RcChannel e).
-Proof. exact recv_ledger. Qed.
+Proof. exact (@recv_ledger). Qed.
 Print Assumptions C09_every_block_released_exactly_once.
 
 (* an accepted frame was stored completely inside the room of the block *)
@@ -85,7 +85,7 @@ Theorem C09_accepted_frame_inside_block :
          rr_frame r = Some f ->
          exists octets : list N,
            parse_frame octets = inr f /\ N.of_nat (length octets) <= room p /\ rr_reply r = [] /\ rr_allocated r = true.
-Proof. exact recv_accepted. Qed.
+Proof. exact (@recv_accepted). Qed.
 Print Assumptions C09_accepted_frame_inside_block.
 
 (* payload = what follows the 12..16 header octets inside the received octets; fields in range *)
@@ -99,7 +99,7 @@ Theorem C09_parsed_header_shape :
          f_meta f < 16 /\
          type_ok (f_type f) (f_meta f) = true /\
          (octets raw -> f_seq f < 65536 /\ f_addr f < 4294967296 /\ f_bsize f < 4294967296).
-Proof. exact parse_header_shape. Qed.
+Proof. exact (@parse_header_shape). Qed.
 Print Assumptions C09_parsed_header_shape.
 
 (* the read buffer handed to the backend holds at least the requested block and lies behind the header inside the block (unit * room <= block size - frame structure - header); a read that does not fit is answered with ETXOVERFLOW carrying the buffer size; a write hands over exactly the received payload (whose length is the announced block, C06/C07) *)
@@ -138,7 +138,7 @@ Theorem C09_backend_buffers :
                bc_write := true; bc_addr := f_addr f; bc_bsize := f_bsize f; bc_payload := f_payload f; bc_room := 0
              |} in
            regp_process p r backend = ([call], verdict_reply p f (backend call) [] 0).
-Proof. exact process_request. Qed.
+Proof. exact (@process_request). Qed.
 Print Assumptions C09_backend_buffers.
 
 (* after every round of any session history: allocations = releases *)
@@ -148,7 +148,7 @@ Theorem C09_session_balance :
          ss_allocs st = ss_frees st ->
          ss_allocs st' = ss_frees st' /\
          Forall (fun rd : round => rd_allocs rd = rd_frees rd /\ (length (rd_calls rd) <= 1)%nat) rs.
-Proof. exact serve_balanced. Qed.
+Proof. exact (@serve_balanced). Qed.
 Print Assumptions C09_session_balance.
 
 
